@@ -48,7 +48,8 @@ fn rebuild(g: &Group, ts: Vec<TokenTree>) -> TokenTree {
 fn mutate(tts: &[TokenTree], in_attr: bool, out: &mut Vec<Vec<TokenTree>>) {
     let n = tts.len();
     if in_attr {
-        for len in 1..=3usize {
+        let maxlen = if std::env::var("STANDIN_TIER").map(|v| v == "thorough").unwrap_or(false) { 6usize } else { 3usize };
+        for len in 1..=maxlen {
             if len > n { break; }
             for i in 0..=(n - len) {
                 let mut v = tts[..i].to_vec();
